@@ -56,27 +56,51 @@ class Tok(object):
 
 class StubConfig(object):
     """Keyed stand-in for configparser.ConfigParser behind InputStore: no file
-    syntax, no interpolation, no iteration (any other access raises)."""
+    syntax, no interpolation, no iteration (any other access raises).  Models
+    the [DEFAULT] section the way configparser does: has_option(section, key)
+    is false while the section does not exist, and true for a key that only
+    [DEFAULT] provides once the section exists."""
 
     def __init__(self, world, preset=None):
         self.world = world
         self.set_values = dict(preset or {})
-        self._sections = set()
+        self._sections = set(n.split('.')[0] for n in self.set_values)
+
+    def _present(self, name):
+        return tm.var('present:' + name, 'B')
+
+    def _section_exists(self, section):
+        if section in self._sections:
+            return tm.TRUE
+        # the file has the section iff it holds at least one of its keys
+        keys = [n for n in self.world.input_names if n.split('.')[0] == section]
+        return tm.or_(*[self._present(n) for n in keys]) if keys else tm.FALSE
 
     def has_option(self, section, key):
         name = '%s.%s' % (section, key)
         if name in self.set_values:
             return True
-        return symx.wrap(tm.var('present:' + name, 'B'), bool)
+        t = self._present(name)
+        if self.world.defaults:
+            t = tm.or_(t, tm.and_(self._section_exists(section), tm.var('default:' + name, 'B')))
+        return symx.wrap(t, bool)
 
     def get(self, section, key):
         name = '%s.%s' % (section, key)
         if name in self.set_values:
             return self.set_values[name]
+        if self.world.defaults and not symx.cur().decide(self._present(name)):
+            return Tok('DEFAULT.' + key)
         return Tok(name)
 
     def sections(self):
-        return list(self._sections)
+        out = list(self._sections)
+        if not self.world.defaults:
+            return out          # whether the section already exists is immaterial without [DEFAULT]
+        for sec in sorted(set(n.split('.')[0] for n in self.world.input_names)):
+            if sec not in self._sections and symx.cur().decide(self._section_exists(sec)):
+                out.append(sec)
+        return out
 
     def add_section(self, section):
         self._sections.add(section)
@@ -85,6 +109,7 @@ class StubConfig(object):
         name = '%s.%s' % (section, key)
         self.world.log.append(('store_set', name))
         self.set_values[name] = value
+        self._sections.add(section)
 
     def snapshot(self):
         c = StubConfig(self.world)
@@ -110,6 +135,7 @@ class World(object):
         self.n_modes = 3
         self.n_answers = 3
         self.order = 'symbolic'
+        self.defaults = False
         self.choices = {}
         self.log = []
         self.targets = []
